@@ -76,7 +76,7 @@ def snapshot(obj, seen=None, depth=0):
     if isinstance(obj, dataclasses.Field):
         return ("field", obj.name, id(obj))
     if dataclasses.is_dataclass(obj):
-        return ("dc", type(obj).__qualname__, tuple(snapshot(getattr(obj, f.name), seen, depth + 1) for f in dataclasses.fields(obj)))
+        return ("dc", type(obj).__module__, type(obj).__qualname__, tuple(snapshot(getattr(obj, f.name), seen, depth + 1) for f in dataclasses.fields(obj)))
     if isinstance(obj, types.MappingProxyType):
         return ("mappingproxy", tuple((snapshot(k, seen, depth + 1), snapshot(v, seen, depth + 1)) for k, v in obj.items()))
     d = getattr(obj, "__dict__", None)
@@ -269,14 +269,75 @@ def finite_checks(cls, opts, others):
             # function identity differs between two constructions; compare modulo ids of the outermost closure
             return repr(_strip_ids(s))
         out["construction_deterministic"] = norm(snapshot(r2)) == norm(snapshot(r)) and norm(snapshot(w2)) == norm(snapshot(w))
-    ms = module_snapshot()
-    for o in others:
-        entity_reader(o)
-        entity_writer(o)
-        entity_reader(o, True) if False else None
-    out["other_classes_do_not_interfere"] = (snapshot(r), snapshot(w)) == base and module_snapshot() == ms
     out["cached_object_is_reused"] = entity_reader(cls) is r and entity_writer(cls) is w
     return out
+
+
+def order_digests(order):
+    """Run in a clean interpreter (no models): create readers/writers for every class in the given
+    order and return, per class, a digest of observable behaviour: the bytes of two canonical
+    instances, the decoded value of those bytes, and the structure of the reader/writer closures."""
+    import hashlib
+    import io
+
+    from kio.serial import entity_reader, entity_writer
+
+    from .. import kref
+
+    classes = shapes.all_entity_classes()
+    classes = list(reversed(classes)) if order == "rev" else classes
+    out = {}
+    for cls in classes:
+        r, w = entity_reader(cls), entity_writer(cls)
+        parts = []
+        inst1 = shapes.Builder(None, {}).entity(cls)
+        try:
+            inst2 = cls(**{f.name: (kref.implicit_default(cls, f) if "tag" in f.metadata else getattr(inst1, f.name)) for f in dataclasses.fields(cls)})
+        except Exception as e:
+            inst2 = inst1
+        for inst in (inst1, inst2):
+            buf = io.BytesIO()
+            try:
+                w(buf, inst)
+                data = buf.getvalue()
+                back = r(io.BytesIO(data))
+                parts.append(data.hex() + "|" + repr(back == inst))
+            except Exception as e:
+                parts.append("EXC:" + type(e).__name__)
+        parts.append(repr(_portable(snapshot(r))))
+        parts.append(repr(_portable(snapshot(w))))
+        out[shapes.class_id(cls)] = hashlib.sha256("\n".join(parts).encode()).hexdigest()[:20] + ":" + parts[0][:60] + ":" + parts[1][:60]
+    return out
+
+
+def order_dependence():
+    """-> list of class ids whose behaviour differs between creation orders (two clean subprocesses)"""
+    import json
+    import subprocess
+
+    procs = [subprocess.Popen([sys.executable, "-m", "kv.props.c19", "--order", o], cwd=os.path.dirname(os.path.dirname(os.path.dirname(os.path.abspath(__file__)))),
+                              stdout=subprocess.PIPE, stderr=subprocess.PIPE, text=True) for o in ("fwd", "rev")]
+    outs = []
+    for p in procs:
+        so, se = p.communicate(timeout=900)
+        if p.returncode != 0:
+            raise RuntimeError("order-dependence subprocess failed: " + se[-800:])
+        outs.append(json.loads(so))
+    fwd, rev = outs
+    return sorted(k for k in fwd if fwd[k] != rev.get(k)), len(fwd), {k: (fwd[k], rev.get(k)) for k in list(fwd) if fwd[k] != rev.get(k)}
+
+
+def _portable(s):
+    """a snapshot with every process-specific identity removed (comparable across interpreters)"""
+    if isinstance(s, tuple):
+        if s and s[0] == "fn":
+            return ("fn", s[1], s[2], tuple(_portable(x) for x in s[4]), _portable(s[5]), _portable(s[6]), _portable(s[7]))
+        if s and s[0] in ("atom", "field", "opaque") and len(s) == 3:
+            return (s[0], s[1])
+        if s and s[0] == "ref":
+            return ("ref",)
+        return tuple(_portable(x) for x in s)
+    return s
 
 
 def _strip_ids(s):
@@ -343,7 +404,19 @@ def check(tier):
     cex = list(total.cex)
     for cid, k in finite_bad[:10]:
         cex.append({"clause": k, "witness": {"class": cid, "finite": k}, "info": {}})
+    try:
+        differing, n_order, detail = order_dependence()
+    except Exception as e:
+        differing, n_order, detail = [], 0, {}
+        inconclusive_order = str(e)[:300]
+    else:
+        inconclusive_order = None
+    total.clauses["results_independent_of_creation_order"] = [n_order, n_order - len(differing)]
+    for cid in differing[:5]:
+        cex.append({"clause": "results_independent_of_creation_order", "witness": {"class": cid, "order": True, "digests": detail.get(cid)}, "info": {}})
     inconclusive = []
+    if inconclusive_order:
+        inconclusive.append("order-dependence probe failed to run: " + inconclusive_order)
     if total.unsupported:
         inconclusive.append(f"{total.unsupported} path(s) could not be followed by the engine: {list(total.unsupported_msgs.items())[:5]}")
     if total.paths == 0:
@@ -353,12 +426,20 @@ def check(tier):
                           "kio._utils.cache (functools.cache)", "kio.serial.writers.write_tagged_field (private buffers)", "module globals of kio.serial.*"],
         bounds={"history": "one arbitrary earlier call (successful, OSError at the k-th write/read with k symbolic, truncated source) followed by one call; inductive step for histories of any length given the frame clause",
                 "instances": "two independent symbolic instances per path; shapes base + deviations to depth %d" % opts["max_dev"], "classes": len(targets), "of": len(classes),
-                "fault_index": "every write / read index of the call (one fork per stream call)", "other_classes_sampled_per_class": opts["others"],
+                "fault_index": "every write / read index of the call (one fork per stream call)", "creation_orders": "all classes in forward and in reverse order, each in a clean interpreter; behaviour digests compared for all %d classes" % n_order,
                 "thread_schedules": "NOT explored - by reduction only (no shared state written, deterministic construction)"},
         outside=["thread interleavings (no installed engine executes Python threads symbolically; claimed by the non-interference argument only)",
                  "state hidden inside C extension objects (functools.cache internals are trusted)", "faults other than an exception raised by the stream call"],
         rule="one state = one completed symbolic two-call history on the cached reader/writer of one class",
-        extra={"finite_checks": finite_n, "finite_failures": finite_bad[:10], "classes_checked": len(targets),
+        extra={"finite_checks": finite_n, "finite_failures": finite_bad[:10], "classes_checked": len(targets), "order_dependence_classes_compared": n_order,
+               "order_dependent_classes": differing[:10],
                "rebinding_report": {k: v for k, v in rep.items() if k != "__keep__" and v}, "source_hashes": install.source_hashes()})
     return runner.finish("C19", tier, t0, level="model_checking", coverage=cov, assumptions=["A1", "A3", "A7", "A8"], cex=cex,
                          inconclusive=inconclusive, samples=samples)
+
+
+if __name__ == "__main__":
+    import json
+
+    if len(sys.argv) == 3 and sys.argv[1] == "--order":
+        print(json.dumps(order_digests(sys.argv[2])))
